@@ -212,3 +212,55 @@ theorem scan_irreducible {O E} (c : Cfg O E) :
       exact hinv i hi (by omega)
 
 end Furax
+
+namespace Furax
+
+/-! ### at most one scalar factor -/
+
+/-- number of operands the configuration classifies as scalar operators -/
+def homCount {O E} (c : Cfg O E) (ops : List O) : Nat := (ops.filter c.isHom).length
+
+theorem homCount_append {O E} (c : Cfg O E) (a b : List O) :
+    homCount c (a ++ b) = homCount c a + homCount c b := by
+  simp [homCount, List.filter_append]
+
+theorem homCount_splice_le {O E} (c : Cfg O E) (ops : List O) (index : Nat) (new : List O)
+    (h : index + 1 < ops.length) (hn : new.any c.isHom = false) :
+    homCount c (splice ops index new) ≤ homCount c ops := by
+  have hsplit := list_split_at ops index h
+  have h0 : homCount c new = 0 := by
+    simp only [homCount, List.length_eq_zero_iff, List.filter_eq_nil_iff]
+    intro a ha
+    have := List.any_eq_false.mp hn a ha
+    simpa using this
+  conv => rhs; rw [hsplit]
+  simp only [splice, homCount_append, h0]
+  omega
+
+/-- If the scalar relocation always leaves at most one scalar operator, so does the whole scan. -/
+theorem scan_homCount {O E} (c : Cfg O E) (hh : ∀ ops, homCount c (c.homRule ops) ≤ 1) :
+    ∀ fuel ops index res, homCount c ops ≤ 1 → scan c fuel ops index = .ok (some res) →
+      homCount c res ≤ 1 := by
+  intro fuel
+  induction fuel with
+  | zero => intro ops index res _ h; simp [scan] at h
+  | succ n ih =>
+    intro ops index res hc hres
+    unfold scan at hres
+    split at hres
+    · rename_i h
+      split at hres
+      · simp at hres
+      · rename_i new hf
+        simp only [] at hres
+        split at hres
+        · exact ih _ _ _ (hh _) hres
+        · rename_i hany
+          refine ih _ _ _ ?_ hres
+          have := homCount_splice_le c ops index new h (by simpa using hany)
+          omega
+      · exact ih _ _ _ hc hres
+    · simp only [Except.ok.injEq, Option.some.injEq] at hres
+      subst hres; exact hc
+
+end Furax
